@@ -33,6 +33,8 @@ class KNXIPHeader:
         self.total_length = data[4] * 256 + data[5]
         if data[1] != KNXIPHeader.PROTOCOLVERSION:
             raise CouldNotParseKNXIP("wrong protocol version")
+        if self.total_length < KNXIPHeader.HEADERLENGTH:
+            raise CouldNotParseKNXIP("total length shorter than the header")
 
         try:
             self.service_type_ident = KNXIPServiceType(data[2] * 256 + data[3])
